@@ -65,7 +65,7 @@ Lemma name_pair_run inp s e kids :
              = Ok (skipn (N.to_nat e) inp, e, kids))
   /\ s <= e /\ (N.to_nat e <= length inp)%nat.
 Proof.
-  intros Hrep. cbn [replayable] in Hrep. destruct Hrep as [f [a [Hrun Hb]]]. split; [exists f; exact Hrun|exact Hb].
+  intros Hrep. cbn [replayable] in Hrep. destruct Hrep as [f [a [Hrun [_ Hb]]]]. split; [exists f; exact Hrun|exact Hb].
 Qed.
 
 Lemma name_start_not_terminator c : is_name_start c = true -> is_lt c = false.
@@ -160,7 +160,7 @@ Theorem keyword_pairs_true : forall inp start ps file r l s e kids,
 Proof.
   intros inp start ps file r l s e kids Hparse Hin Hkw p.
   pose proof (parse_pairs_replay _ _ _ _ Hparse Hin) as Hrep. cbn [replayable] in Hrep.
-  destruct Hrep as [f [a [Hrun [Hse Hlen]]]].
+  destruct Hrep as [f [a [Hrun [_ [Hse Hlen]]]]].
   pose proof (keyword_of_shape _ _ Hkw) as Hdef.
   assert (Hsk : body_sk G r = false).
   { unfold body_sk, static_atomic. change (g_rule G r) with (rule_def r). rewrite Hdef. reflexivity. }
@@ -215,7 +215,7 @@ Qed.
 
 Lemma replayable_bounds inp (p : pr) :
   replayable G inp p -> pair_start p <= pair_end p /\ (N.to_nat (pair_end p) <= length inp)%nat.
-Proof. destruct p as [r s e kids]. cbn [replayable pair_start pair_end]. intros [f [a [_ Hb]]]. exact Hb. Qed.
+Proof. destruct p as [r s e kids]. cbn [replayable pair_start pair_end]. intros [f [a [_ [_ Hb]]]]. exact Hb. Qed.
 
 (** The builder takes a node's text ([as_str]) and its position ([to_pos]) from one and the same pair.
     For every pair of the tree, whatever its rule: at the reported (line, column) -- read with the
